@@ -171,8 +171,27 @@ func renderModel(p *vm.Program, m *Sx) string {
 
 type DefectFlags struct{ RangeSigned, MemNotReset bool }
 
-// the flags that mirror /repo today (flipped when a fix: commit lands; see known_findings.json)
+// The flags that mirror /repo today.  They are DERIVED on every run from the facts the translator extracts
+// from vm/vm.go (Gen/VMReset.lean: is `vm.memory` assigned in the prologue of Run?  Gen/Budget.lean: is the
+// size of OpRange clamped at zero?) by the model driver's `srcdefects` stage (lean/ExprModel/VM/SrcDefects.lean),
+// so the same /verif follows the code before and after a fix: commit.  The values below are only the
+// fallback used if the driver cannot be asked (reported as a broken tie).
 var asIs = DefectFlags{RangeSigned: true, MemNotReset: true}
+
+func initAsIs(c *Ctx) {
+	resp, err := c.AskAll([]string{"(srcdefects)"})
+	if err != nil {
+		c.R.Mismatch("driver", "srcdefects", err.Error(), "")
+		return
+	}
+	m, perr := ParseSx(resp[0])
+	if perr != nil || m.Tag() != "defects" || len(m.List) != 3 {
+		c.R.Mismatch("driver", "srcdefects", resp[0], "(defects <rangeSizeSigned> <memoryNotReset>)")
+		return
+	}
+	asIs = DefectFlags{RangeSigned: m.List[1].Atom == "true", MemNotReset: m.List[2].Atom == "true"}
+	c.R.Note("model variant derived from the source: rangeSizeSigned=%v memoryNotReset=%v", asIs.RangeSigned, asIs.MemNotReset)
+}
 
 func (d DefectFlags) Sx() *Sx { return T("defects", SBool(d.RangeSigned), SBool(d.MemNotReset)) }
 
